@@ -177,7 +177,7 @@ impl Case {
 
 fn space_tag(name: &str) -> &str {
     let head = name.split('|').next().unwrap_or("");
-    if matches!(head, "res1" | "res2-classes" | "res2-full" | "res3-classes" | "body" | "iface" | "mutant" | "reserved-word") { head } else { "fixed" }
+    if matches!(head, "res1" | "res2-classes" | "res2-full" | "res3-classes" | "groupnum" | "body" | "iface" | "mutant" | "reserved-word") { head } else { "fixed" }
 }
 
 fn pair(a: Cfg, b: Cfg) -> String {
@@ -1625,6 +1625,139 @@ fn res_spaces(quick: bool) -> Vec<ResSpace> {
 }
 
 // ---------------------------------------------------------------------------------------------
+// space 2a: the bind-group NUMBER as a dimension (G-GROUPNUM). The resource alphabet above knows the group annotations
+// only with the numbers 1 and 2 and DefaultBindGroup only as 0 / 1. Here the number itself is enumerated: every bindable kind
+// × every way to name a group (`register(spaceN)`, `[[rssl::bind_group(N)]]`, `[[vk::binding(5, N)]]`, or none) × every N in
+// 0..=max × every DefaultBindGroup in {absent, 1..=max} × a neighbour declaration without annotation (which therefore lands
+// in the default group). (Added after a seeded change that made only the Vulkan flavour refuse descriptor sets >= 4 was
+// missed: no generated program had a group number above 2.)
+
+const GROUP_FORMS: [&str; 4] = ["none", "register-space", "rssl-bind_group", "vk-binding"];
+
+#[derive(Clone)]
+struct GroupCase {
+    kind: usize,
+    array: u8,
+    /// index into GROUP_FORMS
+    form: usize,
+    /// the group number written in the annotation
+    n: u64,
+    /// 0: no DefaultBindGroup; d: `DefaultBindGroup = d`
+    dbg: u64,
+    /// None or a neighbour (index for `neighbour`) declared after the annotated declaration
+    after: Option<usize>,
+    shape: u64,
+    usage: u64,
+    mode: Mode,
+    validate: bool,
+}
+
+impl GroupCase {
+    fn item(&self, name: &str) -> Item {
+        // the declaration text of the alphabet with the group number substituted
+        let base = Res { kind: self.kind, array: self.array, group: self.form as u8 };
+        let decl = decl_text(&base, name)
+            .replace(" : register(space1)", &format!(" : register(space{})", self.n))
+            .replace("[[rssl::bind_group(2)]]", &format!("[[rssl::bind_group({})]]", self.n))
+            .replace("[[vk::binding(5, 1)]]", &format!("[[vk::binding(5, {})]]", self.n));
+        Item { name: name.to_string(), decl, stmt: use_text(&base, name, self.usage == 1) }
+    }
+
+    fn case(&self) -> Case {
+        let mut items = vec![self.item("g0")];
+        if let Some(k) = self.after {
+            items.push(neighbour(k, "g1"));
+        }
+        let src = build_program_of(&items, self.shape, self.usage, self.dbg);
+        let name = format!(
+            "groupnum|{}.{}|{}|n{}|dbg{}|after[{}]|shape{}|usage{}",
+            KINDS[self.kind].ty,
+            self.array,
+            GROUP_FORMS[self.form],
+            self.n,
+            self.dbg,
+            self.after.map(|k| NEIGHBOUR_NAMES[k]).unwrap_or(""),
+            self.shape,
+            self.usage
+        );
+        Case { name, src, mode: self.mode.clone(), validate: self.validate }
+    }
+}
+
+/// the largest group number of the tier (quick: 0..=8, one beyond the 8 sets of the usual Vulkan minimum; thorough: 0..=9
+/// and 31, 32)
+fn group_numbers(quick: bool) -> Vec<u64> {
+    let mut v: Vec<u64> = (0..=if quick { 8 } else { 9 }).collect();
+    if !quick {
+        v.extend([31, 32]);
+    }
+    v
+}
+
+/// quick: the 10 allocator-class kinds that take a group annotation × {no annotation, 3 annotation forms × 9 numbers} (28)
+/// × 9 default groups × {alone, followed by a cbuffer, followed by a buffer address} (3) = 7 560 cases, plus the 12 other
+/// object kinds × 28 annotation choices, alone and without DefaultBindGroup (336 cases); compute shape, direct usage.
+/// thorough: all 22 kinds with 12 numbers (37 annotation choices), 12 default groups and all 6 contexts (58 608 cases),
+/// plus (one dimension widened at a time) the other four pipeline shapes, the array form `[2]`, usage through helper
+/// functions / of the last declaration only, layout validation and the no-pipeline mode, each alone or followed by a
+/// cbuffer, over the allocator-class kinds.
+fn group_cases(quick: bool) -> Vec<GroupCase> {
+    let numbers = group_numbers(quick);
+    let dbgs: Vec<u64> = numbers.clone(); // 0 = absent
+    let all_kinds: Vec<usize> = (0..KINDS.len()).filter(|k| KINDS[*k].class != KindClass::Plain).collect();
+    let class_kinds: Vec<usize> = all_kinds.iter().copied().filter(|k| *k < N_CLASS_KINDS).collect();
+    let other_kinds: Vec<usize> = all_kinds.iter().copied().filter(|k| *k >= N_CLASS_KINDS).collect();
+    let mut annotations: Vec<(usize, u64)> = vec![(0, 0)];
+    // simplest first: small numbers before large ones
+    for n in &numbers {
+        for form in 1..GROUP_FORMS.len() {
+            annotations.push((form, *n));
+        }
+    }
+    let alone: Vec<Option<usize>> = vec![None];
+    let contexts_quick: Vec<Option<usize>> = vec![None, Some(1), Some(3)];
+    let contexts_all: Vec<Option<usize>> = std::iter::once(None).chain((0..N_NEIGHBOURS).map(Some)).collect();
+    let few: Vec<Option<usize>> = vec![None, Some(1)];
+    let mut out = Vec::new();
+    let mut push = |kinds: &Vec<usize>, dbgs: &[u64], contexts: &Vec<Option<usize>>, arrays: &[u8], shapes: &[u64], usages: &[u64], modes: &[Mode], validates: &[bool]| {
+        for (form, n) in &annotations {
+            for dbg in dbgs {
+                for after in contexts {
+                    for kind in kinds {
+                        for array in arrays {
+                            if *array > 0 && KINDS[*kind].class != KindClass::Object {
+                                continue;
+                            }
+                            for shape in shapes {
+                                for usage in usages {
+                                    for mode in modes {
+                                        for validate in validates {
+                                            out.push(GroupCase { kind: *kind, array: *array, form: *form, n: *n, dbg: *dbg, after: *after, shape: *shape, usage: *usage, mode: mode.clone(), validate: *validate });
+                                        }
+                                    }
+                                }
+                            }
+                        }
+                    }
+                }
+            }
+        }
+    };
+    if quick {
+        push(&class_kinds, &dbgs, &contexts_quick, &[0], &[0], &[0], &[Mode::All], &[false]);
+        push(&other_kinds, &[0], &alone, &[0], &[0], &[0], &[Mode::All], &[false]);
+    } else {
+        push(&all_kinds, &dbgs, &contexts_all, &[0], &[0], &[0], &[Mode::All], &[false]);
+        push(&class_kinds, &dbgs, &few, &[0], &[1, 2, 3, 4], &[0], &[Mode::All], &[false]);
+        push(&class_kinds, &dbgs, &few, &[1], &[0], &[0], &[Mode::All], &[false]);
+        push(&class_kinds, &dbgs, &few, &[0], &[0], &[1, 2], &[Mode::All], &[false]);
+        push(&class_kinds, &dbgs, &few, &[0], &[0], &[0], &[Mode::All], &[true]);
+        push(&class_kinds, &dbgs, &few, &[0], &[0], &[0], &[Mode::NoPipeline], &[false]);
+    }
+    out
+}
+
+// ---------------------------------------------------------------------------------------------
 // space 2b: the contents of the declarations that have a body (G-BODY). The resource alphabet above gives every cbuffer and
 // every struct two members. Here the member list itself is enumerated: every sequence of 0..=max members over the member
 // alphabet (the empty list first), as the body of a cbuffer, of the struct of a ConstantBuffer<T> and of the struct of a
@@ -2147,6 +2280,23 @@ pub fn run(ctx: &Ctx) -> i32 {
     rep.cov("iface_declarator_shapes", Json::Int(IFACE_DECLS.len() as i64));
     eprintln!("[C18] stage interfaces ({} cases) done at {:.1}s", ifaces.len(), ctx.start.elapsed().as_secs_f64());
 
+    // ---- space 2a: the bind-group number (run early: it is small and must not be cut by the budget)
+    let groups = group_cases(ctx.quick());
+    let r = run_par(ctx, groups.len() as u64, 32, |idx, acc| {
+        acc.cur_index = (9u64 << 40) + idx;
+        let c = groups[idx as usize].case();
+        let t0 = thread_cpu_s();
+        check_case(&c, acc);
+        acc.add("cpu_us groupnum", ((thread_cpu_s() - t0) * 1e6) as u64);
+        if idx % 4_999 == 5 {
+            acc.sample(obj(vec![("space", "groupnum".into()), ("case", c.name.as_str().into()), ("source", one_line(&c.src, 300).into())]));
+        }
+    });
+    rep.absorb("bind_group_numbers", r);
+    rep.cov("group_numbers", Json::Int(group_numbers(ctx.quick()).len() as i64));
+    rep.cov("group_number_max", Json::Int(*group_numbers(ctx.quick()).last().unwrap() as i64));
+    eprintln!("[C18] bind-group numbers ({} cases) done at {:.1}s", groups.len(), ctx.start.elapsed().as_secs_f64());
+
     // ---- space 2: resource sequences × pipelines
     let mut rank = 0u64;
     for sp in res_spaces(ctx.quick()) {
@@ -2235,7 +2385,7 @@ pub fn run(ctx: &Ctx) -> i32 {
     rep.cov("mutants_total", Json::Int(ms.total as i64));
     rep.absorb("mutants", r);
     if ctx.quick() {
-        rep.caps_hit.push("quick tier: every 25th single-token mutant with one (mode, validation) combination each (25 is coprime to the 57 mutations per token, so every mutation kind is applied at every 25th position); one declaration in all-pipelines mode only and thinned to the cases with an even digit sum (every (shape, usage, declaration) with one of the two default bind groups); three declarations thinned to the cases whose digit sum is a multiple of 3 (every ordered pair of declarations at every two positions, with a third of the alphabet at the remaining position); reserved words in all-pipelines mode only; declaration bodies: member lists of at most 2 members over 5 member types, at most one neighbour, compute shape; two declarations over the class alphabet with 2 group annotations, direct usage and DefaultBindGroup 0, thinned to the cases with an even digit sum (every ordered pair of declarations with 2 or 3 of the 5 pipeline shapes); two declarations over the full alphabet without bindless arrays and attribute group annotations and with the compute shape only; three declarations over the 13 allocator classes × 2 group annotations, no arrays, with the compute shape — the rest is explored in the thorough tier".into());
+        rep.caps_hit.push("quick tier: every 25th single-token mutant with one (mode, validation) combination each (25 is coprime to the 57 mutations per token, so every mutation kind is applied at every 25th position); one declaration in all-pipelines mode only and thinned to the cases with an even digit sum (every (shape, usage, declaration) with one of the two default bind groups); three declarations thinned to the cases whose digit sum is a multiple of 3 (every ordered pair of declarations at every two positions, with a third of the alphabet at the remaining position); reserved words in all-pipelines mode only; declaration bodies: member lists of at most 2 members over 5 member types, at most one neighbour, compute shape; two declarations over the class alphabet with 2 group annotations, direct usage and DefaultBindGroup 0, thinned to the cases with an even digit sum (every ordered pair of declarations with 2 or 3 of the 5 pipeline shapes); two declarations over the full alphabet without bindless arrays and attribute group annotations and with the compute shape only; three declarations over the 13 allocator classes × 2 group annotations, no arrays, with the compute shape; bind-group numbers 0..=8 in annotations and DefaultBindGroup with the compute shape, direct usage, no arrays, 3 of the 6 contexts and the DefaultBindGroup dimension for the 10 allocator-class kinds only — the rest is explored in the thorough tier".into());
     }
 
     rep.assumptions = NORMALISER_DESCRIPTION.iter().map(|s| s.to_string()).collect();
